@@ -28,6 +28,7 @@ def run(rep, prog, tier):
     from .c10 import r7 as gc_bookkeeping
     gc_bookkeeping(Retag(rep, "C20-R7"), prog)
     r8(rep, prog)
+    r9(rep, prog)
 
 
 def r8(rep, prog):
@@ -40,6 +41,26 @@ def r8(rep, prog):
     rep.floor(R, "functions that read .managed.json back", len(base), 1)
     rule_precede(rep, prog, R, "tantivy::index::index::Index::validate_checksum", readers, {MDI + "list_managed_files"},
                  "a re-read of .managed.json", "ManagedDirectory::list_managed_files", a_ok=True, key="validate_checksum refreshes the managed list before it uses it")
+
+
+def r9(rep, prog):
+    """a deleted path does not keep serving its old bytes"""
+    from ..model import Ev, must_pass
+    R = "C20-R9"
+    rep.rule(R, "reading back yields what was written last: MmapDirectory caches the mmap of every path it opened (weak references, alive while anybody holds a slice). A path can be deleted and written again (garbage collection followed by a file of the same name; the delete file of a failed commit, removed and rewritten by the next one): MmapDirectory::delete must evict the path's entry from the cache on every path to its Ok return — its own doc comment says so — or open_read of the re-created file returns the bytes, footer and checksum of the deleted one")
+    fid = "<tantivy::directory::mmap_directory::MmapDirectory as tantivy::directory::directory::Directory>::delete"
+    b = get_body(rep, prog, R, fid)
+    if b is None:
+        return
+    ev = []
+    for bi, t in b.calls():
+        f = t.get("res") or t.get("f") or ""
+        if f.endswith("HashMap::<K, V, S, A>::remove") or "MmapCache::remove" in f or f.endswith("MmapCache::evict"):
+            ev.append(Ev(bi, "term"))
+    bad = must_pass(b, ev, exits="ok") if ev else [0]
+    rep.check(bool(ev) and not bad, R, "MmapDirectory::delete evicts the cached mmap of the path", "%d eviction site(s), must-passed on the Ok path" % len(ev),
+              "MmapDirectory::delete removes the file but leaves the path's entry in the mmap cache: while somebody still holds a slice of the deleted file, open_read of a file re-created under the same name returns the old "
+              "bytes (and ManagedDirectory::validate_checksum answers for the old content)", site=b.span)
 
 
 def r6(rep, prog):
